@@ -16,9 +16,12 @@ namespace SoyVerif.Props.C04e
 open SoyVerif SoyVerif.Model SoyVerif.Model.JsGen SoyVerif.Spec.JsSemRef SoyVerif.Spec.JsStmt
 open SoyVerif.Spec.JsSem (JsOp exact)
 open SoyVerif.Props.C04 (opOf)
-open SoyVerif.Props.C04c (toAst accAst toJsV EnvRel fn1Of fn2Of)
+open SoyVerif.Props.C04c (toAst accAst toJsV EnvRel fn1Of fn2Of Globals GlobalsAre IjRel GlobRel)
 
-variable {ent : Spec.Eval.Binds}
+set_option linter.unusedSectionVars false
+
+section Dev
+variable [Globals] {ent : Spec.Eval.Binds}
 open SoyVerif.Props.C04d
 open SoyVerif.Spec.Eval (Val Out)
 
@@ -264,7 +267,17 @@ theorem expr_no_throw (sc : Scope) (env : SEnv) (jenv : JEnv) (hrel : EnvRel ent
     simp only [toAst, Option.some.injEq] at h; subst h
     simp [eval] at hj
   | .float _ _, _, h, _ => by simp [toAst] at h
-  | .global _ _, _, h, _ => by simp [toAst] at h
+  | .global _ name, j, h, hj => by
+    unfold toAst at h
+    cases hg : assocGet? Globals.tbl name with
+    | none => simp [hg] at h
+    | some v =>
+      simp only [hg] at h
+      cases v <;> simp only [C04c.globalAst, Option.some.injEq, reduceCtorEq] at h <;> subst h <;> unfold eval at hj
+      · cases hj
+      · cases hj
+      · split at hj <;> cases hj
+      · cases hj
   | .list _ _, _, h, _ => by simp [toAst] at h
   | .map _ _, _, h, _ => by simp [toAst] at h
   | .neg _ a, j, h, hj => by
@@ -425,6 +438,26 @@ theorem expr_no_throw (sc : Scope) (env : SEnv) (jenv : JEnv) (hrel : EnvRel ent
   | .dataRef dpos key acc, j, h, hj => by
     unfold toAst at h
     split at h
+    · rename_i hkij
+      simp only [Option.map_eq_some_iff] at h
+      obtain ⟨j0, hacc, rfl⟩ := h
+      have hj0 : eval jenv j0 = .error := by
+        cases hns : anyNullSafe acc <;> simp only [hns, Bool.false_eq_true, if_false, if_true] at hj
+        · exact hj
+        · unfold eval at hj; exact hj
+      have hk : (key == Spec.Eval.sIj) = true := by simpa [C04c.sIj, Spec.Eval.sIj] using hkij
+      have hir := hrel.2.2.2.1
+      unfold IjRel at hir
+      cases hij : env.ij with
+      | none => intro v; simp [Spec.Eval.eval, hk, hij]
+      | some kvs =>
+        simp only [hij] at hir
+        obtain ⟨jk, hjk, hje⟩ := hir
+        have hspec : Spec.Eval.eval env (.dataRef dpos key acc) = Spec.Eval.evalAcc env acc (.map kvs) := by
+          simp [Spec.Eval.eval, hk, hij]
+        rw [hspec]
+        exact accAst_no_throw env jenv acc .ijData j0 (.map kvs) (.obj jk) hacc (by simp [eval, hje]) (by simp [C04c.toJsV, hjk]) hj0
+    split at h
     · cases h
     · rename_i hij
       simp only [Option.map_eq_some_iff] at h
@@ -547,7 +580,7 @@ theorem appendTo_ne_error {buf : Bytes} {jenv : JEnv} {out : Bytes} (hb : BufIs 
     · cases h
 
 section
-variable (F : Bytes → List Expr → JVal → JOut) (G : Bytes → JVal → JOut)
+variable (F : Bytes → List Expr → JVal → JOut) (G : Callee)
 
 theorem applyCalls_unspec : ∀ (ds : List Directive), applyCalls F ds .unspec = .unspec
   | [] => rfl
@@ -1558,8 +1591,8 @@ theorem msg_ne (p id : Nat) (m d : Bytes) (bp : Nat) (body : MsgParts) (ih : Par
 
 /-- the callee oracle throws only where the reference's `call` does not render -/
 def CallRelE : Prop :=
-  ∀ (name : Bytes) (ce : Spec.Eval.CallEnv) (jd : List (Bytes × JVal)),
-    C04c.toJsKvs ce.entry = some jd → G name (.obj jd) = .error →
+  ∀ (name : Bytes) (ce : Spec.Eval.CallEnv) (jd : List (Bytes × JVal)) (jij : Option (List (Bytes × JVal))),
+    C04c.toJsKvs ce.entry = some jd → IjRel ce.ij jij → GlobRel ce.globals → G name (.obj jd) jij = .error →
     ∀ callee out, Registry.lookup R.reg name = some callee → R.call callee ce ≠ .val out
 
 /-- the params of a call: where the statements that fill the content params' buffers throw, or the `key: value`
@@ -1706,7 +1739,8 @@ theorem call_ne (hGe : CallRelE G R) (p : Nat) (name : Bytes) (allData : Bool) (
             rw [hbd] at hbd'
             simp only [Out.val.injEq] at hbd'; subst hbd'
             rcases withVal_error hx2 with hge | ⟨rv, _, hx2⟩
-            · exact hGe name ⟨bs ++ bd, env.ij, env.globals⟩ (extra ++ bkvs) (toJsKvs_append _ _ _ _ hjb hbj) hge callee outc hlk hc
+            · exact hGe name ⟨bs ++ bd, env.ij, env.globals⟩ (extra ++ bkvs) jenvF.ijData (toJsKvs_append _ _ _ _ hjb hbj)
+                hrelF.2.2.2.1 hrelF.2.2.2.2 hge callee outc hlk hc
             · exact appendTo_ne_error hbF rv hx2
         | undefined => cases hx2
         | null => cases hx2
@@ -1827,10 +1861,10 @@ def refCall : Nat → Registry.Tmpl → Spec.Eval.CallEnv → Out Bytes
       { vars := ce.entry, loops := [], ij := ce.ij, globals := ce.globals }
 
 /-- what the body of a generated function computes from the data object `kvs`, given the functions it may call -/
-def genBody (G : Bytes → JVal → JOut) (t : Registry.Tmpl) (kvs : List (Bytes × JVal)) : JOut :=
+def genBody (G : Callee) (t : Registry.Tmpl) (kvs : List (Bytes × JVal)) (ij : Option (List (Bytes × JVal))) : JOut :=
   match toCmds (tmplAe t) b!"output" (blockCmds t.body) ⟨[[]], 0⟩ with
   | some r =>
-    (match execStmts F G fuel r.1 ⟨kvs, none, [(b!"output", .str [])]⟩ with
+    (match execStmts F G fuel r.1 ⟨kvs, ij, [(b!"output", .str [])]⟩ with
       | .ok e =>
         (match e.locals.find? (·.1 == b!"output") with
           | some (_, .str out) => .val (.str out)
@@ -1840,13 +1874,13 @@ def genBody (G : Bytes → JVal → JOut) (t : Registry.Tmpl) (kvs : List (Bytes
   | none => .unspec
 
 /-- the generated functions, by depth -/
-def genCall : Nat → Bytes → JVal → JOut
-  | 0, _, _ => .unspec
-  | d + 1, name, data =>
+def genCall : Nat → Callee
+  | 0, _, _, _ => .unspec
+  | d + 1, name, data, ij =>
     match data with
     | .obj kvs =>
       (match Registry.lookup reg name with
-        | some t => genBody F fuel (genCall d) t kvs
+        | some t => genBody F fuel (genCall d) t kvs ij
         | none => .unspec)
     | _ => .unspec
 
@@ -1861,11 +1895,11 @@ theorem scOk_fresh (n : Nat) : ScOk ⟨[[]], n⟩ := by
     for the generated functions themselves -/
 theorem calls_correct : ∀ (d : Nat) (e : Spec.Eval.Binds),
     CallRel (genCall F reg fuel d) ⟨reg, e, refCall F reg d⟩ ∧ CallRelE (genCall F reg fuel d) ⟨reg, e, refCall F reg d⟩
-  | 0, e => ⟨fun _ _ _ _ _ h => by simp [genCall] at h, fun _ _ _ _ h => by simp [genCall] at h⟩
+  | 0, e => ⟨fun _ _ _ _ _ _ _ _ h => by simp [genCall] at h, fun _ _ _ _ _ _ _ h => by simp [genCall] at h⟩
   | d + 1, e => by
     have ih := calls_correct d
     refine ⟨?_, ?_⟩
-    · intro name ce jd r hj hg
+    · intro name ce jd jij r hj hij hgl hg
       simp only [genCall] at hg
       cases hl : Registry.lookup reg name with
       | none => simp [hl] at hg
@@ -1877,7 +1911,7 @@ theorem calls_correct : ∀ (d : Nat) (e : Spec.Eval.Binds),
           · rename_i jenv' hx
             have hbody := gen_correct_body_partial F (genCall F reg fuel d) ⟨reg, ce.entry, refCall F reg d⟩ (tmplAe t)
               (ih ce.entry).1 (blockCmds t.body) 0 rr hrr
-              { vars := ce.entry, loops := [], ij := ce.ij, globals := ce.globals } jd none rfl hj jenv' fuel hx
+              { vars := ce.entry, loops := [], ij := ce.ij, globals := ce.globals } jd jij rfl hj hij hgl jenv' fuel hx
             obtain ⟨text, ht, hb⟩ := hbody
             unfold BufIs at hb
             rw [hb] at hg
@@ -1886,7 +1920,7 @@ theorem calls_correct : ∀ (d : Nat) (e : Spec.Eval.Binds),
           · cases hg
           · cases hg
         · cases hg
-    · intro name ce jd hj hg callee out hlk
+    · intro name ce jd jij hj hij hgl hg callee out hlk
       simp only [Registry.lookup] at hlk
       simp only [genCall, Registry.lookup, hlk, genBody] at hg
       split at hg
@@ -1896,9 +1930,9 @@ theorem calls_correct : ∀ (d : Nat) (e : Spec.Eval.Binds),
         · rename_i hx
           intro hc
           have hrel : EnvRel ce.entry ⟨[[]], 0⟩ { vars := ce.entry, loops := [], ij := ce.ij, globals := ce.globals }
-              ⟨jd, none, [(b!"output", .str [])]⟩ :=
+              ⟨jd, jij, [(b!"output", .str [])]⟩ :=
             C04c.envRel_params _ { vars := ce.entry, loops := [], ij := ce.ij, globals := ce.globals } _
-              (fun k => by simp [Scope.lookup, Scope.lookupIn, frameGet?]) hj
+              (fun k => by simp [Scope.lookup, Scope.lookupIn, frameGet?]) hj hij hgl
           exact gen_no_throw_cmds_partial F (genCall F reg fuel d) ⟨reg, ce.entry, refCall F reg d⟩ (tmplAe callee) b!"output"
             (ih ce.entry).1 (ih ce.entry).2 (blockCmds callee.body) ⟨[[]], 0⟩ rr hrr _ _ [] (scOk_fresh 0)
             (goodBuf_plain 0 _ (by decide)) hrel (by simp [BufIs]) out hc fuel hx
@@ -1911,23 +1945,25 @@ theorem calls_correct : ∀ (d : Nat) (e : Spec.Eval.Binds),
     Spec/Eval.renderTmpl).  No hypothesis about the callees is left: `calls_correct` supplies it. -/
 theorem gen_correct_program_partial (ae : Autoescape) (d : Nat) (body : CmdList) (n : Nat) (r : JsStmts × Scope)
     (h : toCmds ae b!"output" body ⟨[[]], n⟩ = some r) (env : SEnv) (optData : List (Bytes × JVal))
-    (ij : Option (List (Bytes × JVal))) (hdata : C04c.toJsKvs env.vars = some optData) (jenv' : JEnv) (fuel' : Nat)
+    (ij : Option (List (Bytes × JVal))) (hdata : C04c.toJsKvs env.vars = some optData) (hij : IjRel env.ij ij)
+    (hgl : GlobRel env.globals) (jenv' : JEnv) (fuel' : Nat)
     (hx : execStmts F (genCall F reg fuel d) fuel' r.1 ⟨optData, ij, [(b!"output", .str [])]⟩ = .ok jenv') :
     ∃ text, refCmds F ⟨reg, env.vars, refCall F reg d⟩ ae body env = .val text ∧ BufIs b!"output" jenv' text :=
   gen_correct_body_partial F (genCall F reg fuel d) ⟨reg, env.vars, refCall F reg d⟩ ae (calls_correct F reg fuel d env.vars).1
-    body n r h env optData ij rfl hdata jenv' fuel' hx
+    body n r h env optData ij rfl hdata hij hgl jenv' fuel' hx
 
 /-- … and the converse: where the reference renders, the statements complete with that text or leave the common
     subset; no callee throws -/
 theorem gen_complete_program_partial (ae : Autoescape) (d : Nat) (body : CmdList) (r : JsStmts × Scope)
     (h : toCmds ae b!"output" body ⟨[[]], 0⟩ = some r) (env : SEnv) (optData : List (Bytes × JVal))
-    (ij : Option (List (Bytes × JVal))) (hdata : C04c.toJsKvs env.vars = some optData) (fuel' : Nat) (t : Bytes)
+    (ij : Option (List (Bytes × JVal))) (hdata : C04c.toJsKvs env.vars = some optData) (hij : IjRel env.ij ij)
+    (hgl : GlobRel env.globals) (fuel' : Nat) (t : Bytes)
     (ht : refCmds F ⟨reg, env.vars, refCall F reg d⟩ ae body env = .val t) :
     (∃ jenv', execStmts F (genCall F reg fuel d) fuel' r.1 ⟨optData, ij, [(b!"output", .str [])]⟩ = .ok jenv' ∧
       BufIs b!"output" jenv' t) ∨
     execStmts F (genCall F reg fuel d) fuel' r.1 ⟨optData, ij, [(b!"output", .str [])]⟩ = .unspec := by
   have hrel : EnvRel env.vars ⟨[[]], 0⟩ env ⟨optData, ij, [(b!"output", .str [])]⟩ :=
-    C04c.envRel_params _ env _ (fun k => by simp [Scope.lookup, Scope.lookupIn, frameGet?]) hdata
+    C04c.envRel_params _ env _ (fun k => by simp [Scope.lookup, Scope.lookupIn, frameGet?]) hdata hij hgl
   have := gen_complete_cmds_partial F (genCall F reg fuel d) ⟨reg, env.vars, refCall F reg d⟩ ae b!"output"
     (calls_correct F reg fuel d env.vars).1 (calls_correct F reg fuel d env.vars).2 body ⟨[[]], 0⟩ r h env _ [] (scOk_fresh 0)
     (goodBuf_plain 0 _ (by decide)) hrel (by simp [BufIs]) t ht fuel'
@@ -1935,7 +1971,15 @@ theorem gen_complete_program_partial (ae : Autoescape) (d : Nat) (body : CmdList
 
 end
 
+end Dev
+
 /-! ## non-vacuity -/
+
+section Examples
+open SoyVerif.Spec.Eval (Val Out)
+open SoyVerif.Props.C04d
+local instance : Globals := exGlobals
+
 
 /-- `A{$m.q.z}B` -/
 def throwCmds : CmdList :=
@@ -1982,7 +2026,7 @@ example (a : Int) (ha : SoyVerif.Spec.JsSem.exact a = true) (jenv' : JEnv) (r : 
     ∃ text, refCmds sampleF ⟨[calleeT], (sampleEnv a).vars, refCall sampleF [calleeT] 2⟩ .on sampleCall (sampleEnv a) = .val text ∧
       BufIs b!"output" jenv' text :=
   gen_correct_program_partial sampleF [calleeT] 10 .on 2 sampleCall 0 r h (sampleEnv a) _ none
-    (by simp [sampleEnv, C04c.toJsKvs, C04c.toJsV, ha]) jenv' 10 hx
+    (by simp [sampleEnv, C04c.toJsKvs, C04c.toJsV, ha]) rfl (exGlobRel _) jenv' 10 hx
 
 -- depth 0 allows no call: the semantics says nothing (`unspec`), and so does the reference
 example : (match toCmds .on b!"output" sampleCall ⟨[[]], 0⟩ with
@@ -1990,5 +2034,7 @@ example : (match toCmds .on b!"output" sampleCall ⟨[[]], 0⟩ with
       | .unspec => true
       | _ => false)
     | none => false) = true := rfl
+
+end Examples
 
 end SoyVerif.Props.C04e
